@@ -6,6 +6,11 @@ ALL = ["C%02d" % i for i in range(1, 21)]
 
 # id -> dict(level, text, note, technique, design, engine, thorough=True)
 CHECKS = {
+ "C10": dict(level="model_checking",
+  text="Explicit-state BFS over event histories {handshake(listed|clean), set-server(url, down|garbage|bad-signature|good), refresh tick (virtual clock), background-fetch completes (held thread released), restart} to depth 4 (quick) / 5 (thorough) for all 144 configurations CDP set(6: http, https, ldap, ldap+http, two http, file) x fetch mode(2) x signature mode(3) x backend(2) x strict(2), on the real CRLRevocationChecker. After every handshake the verdict is compared with a reference model of 'a CRL for this distribution-point set is in force': strict accepts only then, lenient never denies an unlisted certificate. Canonical state key includes store content and work_dir digests (left-over data is state).",
+  note="All served CRL variants list the same serials so that only in-force-ness and listed-ness enter the oracle; which of several URLs is asked first is mirrored, not judged.",
+  technique="explicit-state model checking (BFS over event histories with canonical state keys) of the implementation against a reference model, background threads as explicit events",
+  design="DESIGN.md §4 C10", engine="history explorer (fw.BFS) + vsched held threads + virtual clock"),
  "C08": dict(level="model_checking",
   text="Two halves on the real code, both backends. (1) Schedule exploration: all interleavings (preemption bound 2 quick / 3 thorough) of a refresh (ticker path and config path) with 1-2 reader threads doing 2-4 lookups of oldOnly/newOnly/common/neither probes; oracle on the step-stamped call/return history: never an error, common always revoked, neither never, and a single switch point (no OLD answer starting after a NEW answer returned). (2) Explicit-state BFS over refresh histories (2 successful versions + 20 failure kinds: refused, HTTP error page, garbage, empty, 7 truncations, bad signature, unknown signer, injected staging-store faults at create/locations/start/insert#k/extmeta/sigcert) to depth 2 (quick) / 3 (thorough); after every event all probes must equal the vector of the last accepted version and no temp artefacts may remain.",
   note="Faults in the directory swap itself are judged under C09/C12. The staging faults are injected through a wrapper around Repository.Factory (exported field).",
